@@ -5,6 +5,10 @@
 import Driver.Common
 import GivaroModel.Model.Zech
 import GivaroModel.Model.GFqExt
+import GivaroModel.Model.GFqCtor
+import GivaroModel.Model.GFqInit
+import GivaroModel.Model.GFqKron
+import GivaroModel.Model.GFqExtension
 import GivaroModel.Prim.Word
 import GivaroModel.Spec.GFqSpec
 import GivaroModel.Spec.GFqExtSpec
@@ -21,6 +25,22 @@ structure FieldSt where
   wd : Word.WDom
 
 def mkDom (T : Tables) : Dom := T.dom
+
+/-- prime factors of `n` by trial division (specification side of the factor list `lowest_prim_root` works with) -/
+def primeFactorsTD (n : Nat) : List Nat :=
+  let rec go (fuel n d : Nat) (acc : List Nat) : List Nat :=
+    match fuel with
+    | 0 => acc
+    | fuel + 1 =>
+      if n ≤ 1 then acc
+      else if d * d > n then n :: acc
+      else if n % d == 0 then
+        let rec strip (f m : Nat) : Nat := match f with
+          | 0 => m
+          | f + 1 => if m % d == 0 && m > 0 then strip f (m / d) else m
+        go fuel (strip 64 n) (d + 1) (d :: acc)
+      else go fuel n (d + 1) acc
+  (go (n + 2) n 2 []).reverse
 
 def splitBar (xs : List String) : List (List String) :=
   xs.foldr (fun s acc => if s == "|" then [] :: acc else
@@ -56,8 +76,17 @@ def handleFld (args res : List String) (line : String) : Option FieldSt × Strin
       let tabOk := T.tablesValid
       -- for small fields, an independent test that the quotient is a field (the modulus is irreducible)
       let irrOk := if k.toNat ≥ 2 && pk ≤ 128 then allInvertible F else true
-      if metaOk && tabOk && irrOk then (some st, "OK")
-      else (some st, diff "SPEC" s!"meta={metaOk},tablesValid={tabOk},chain={T.chainOk},bij={T.bijOk},plus1={T.plus1Ok},irreducible={irrOk}" line)
+      -- model of the constructors' table fill (Model/GFqCtor.lean), run on the modulus and generator the object reports
+      let M := Givaro.Model.GFqCtor.construct F (T.l2p 1)
+      -- for the automatic prime-field constructor also the generator search (`lowest_prim_root`, Model/GFqCtor.lean)
+      let seedOk := if k == 1 && args.getD 3 "" == "0" && p.toNat ≤ 70000 then
+          Givaro.Model.GFqCtor.lowestPrimRoot p.toNat (p.toNat - 1) (primeFactorsTD (p.toNat - 1)) == T.l2p 1
+        else true
+      let modelOk := M.log2pol == T.log2pol && M.pol2log == T.pol2log && M.plus1 == T.plus1 && M.mOne == T.mOne && seedOk
+      let specOk := metaOk && tabOk && irrOk
+      if specOk && modelOk then (some st, "OK")
+      else (some st, diff (if !specOk && !modelOk then "BOTH" else if !specOk then "SPEC" else "MODEL")
+        s!"meta={metaOk},tablesValid={tabOk},chain={T.chainOk},bij={T.bijOk},plus1={T.plus1Ok},irreducible={irrOk},constructModel={modelOk}" line)
     | _, _, _, _, _ => (none, "BAD fld numbers | " ++ cut line)
   | _ => (none, "BAD fld shape | " ++ cut line)
 
@@ -256,11 +285,25 @@ def handleExt (args res : List String) (line : String) : String :=
         ("axpyin", (· == E.add c ab), true), ("maxpyin", (· == E.sub c ab), true), ("axmyin", (· == E.sub ab c), true)]
       let bad := (want.zip rs).filterMap (fun ((name, chk, app), r) =>
         if !app then none else if E.isElt r && chk (pnorm r) then none else some name)
+      -- model: the compositions of extension.h (Model/GFqExtension.lean) over coefficient-list `Poly1Dom` operations
+      let P : Givaro.Model.GFqExtension.PolyOps (List Nat) :=
+        { add := padd B, sub := psub B, neg := pneg B, mul := pmul B, modin := fun a g => pmod B a g,
+          invmod := fun a g => pinvmod B a g, maxpy := fun a b c => psub B c (pmul B a b) }
+      let M : Givaro.Model.GFqExtension.Ext (List Nat) := { pD := P, irred := f }
+      let model : List (List Nat) := [M.add a b, M.sub a b, M.neg a, M.mul a b, M.inv a, M.div a b, M.axpy a b c, M.maxpy a b c,
+        M.axmy a b c, M.addin a b, M.subin a b, M.negin a, M.mulin a b, M.invin a, M.divin a b, M.axpyin c a b,
+        M.maxpyin c a b, M.axmyin c a b]
+      let apps := want.map (fun (_, _, app) => app)
+      let badModel := ((want.zip apps).zip (model.zip rs)).filterMap (fun (((name, _, _), app), (m, r)) =>
+        if !app then none else if pnorm m == pnorm r then none else some name)
       let metaOk := card == p ^ (kb * e) && char == p && expo == kb * e && (pnorm f).length == e + 1
       -- the stored modulus is irreducible: checked through the inverse of every generated non-zero operand above, and
       -- for small fields by exhaustion in the harness' operand set
-      if bad.isEmpty && metaOk then "OK"
-      else diff "SPEC" (s!"meta={metaOk} " ++ " ".intercalate bad) line
+      let specOk := bad.isEmpty && metaOk
+      let modelOk := badModel.isEmpty
+      if specOk && modelOk then "OK"
+      else diff (if !specOk && !modelOk then "BOTH" else if !specOk then "SPEC" else "MODEL")
+        (s!"meta={metaOk} spec:" ++ " ".intercalate bad ++ " model:" ++ " ".intercalate badModel) line
     | _, _ => "BAD ext groups | " ++ cut line
   | _, _ => "BAD ext numbers | " ++ cut line
 
@@ -305,6 +348,68 @@ def handlePack (w : Nat) (args res : List String) (line : String) : String :=
     | _, _, _ => "BAD pack numbers | " ++ cut line
   | _ => "BAD pack | " ++ cut line
 
+
+/-- `vin fs n c_0 … c_{n-1} = r` — `GFqDom::init(Rep&, const Vector&)`; model `Model/GFqInit.lean` (with `Pdom.mod` = the
+    remainder modulo the reported polynomial), specification: the polynomial of `r` is `Σ c_i X^i mod f` -/
+def handleVin (st : FieldSt) (rest res : List String) (line : String) : String :=
+  match natsOf rest with
+  | some (n :: cs) =>
+    if cs.length != n then "BAD vin length | " ++ cut line else
+    let T := st.T
+    let F := T.F
+    if !(cs.all (· < F.p)) || F.k < 2 then "PRE" else
+    let B : Field := { p := F.p, k := 1, irred := 0 }
+    let f := digits F.p (F.k + 1) F.irred
+    let modF : List Nat → List Nat := fun a => let r := pmod B a f; r ++ List.replicate (F.k - r.length) 0
+    let want := undigits F.p (modF cs)
+    let m := Givaro.Model.GFqInit.initVec T modF cs
+    let mstr := match m with | some v => hexNat v | none => "OUT-OF-TABLE"
+    match parseAll res with
+    | some [r] =>
+      let specOk := canon st r && T.l2p r.toNat == want
+      let modelOk := m == some r.toNat
+      if specOk && modelOk then "OK"
+      else diff (if !specOk && !modelOk then "BOTH" else if !specOk then "SPEC" else "MODEL") mstr line
+    | _ => "BAD vin result | " ++ cut line
+  | _ => "BAD vin numbers | " ++ cut line
+
+/-- `krh P K irred nops (0 i | 1 n)… n a_1 b_1 … = shift maxn acc code expected` — GFqKronecker history; model: the state
+    machine of `Model/GFqKron.lean`; specification: `init(Σ convert(a_t)·convert(b_t))` is the dot product `Σ a_t b_t` of the
+    field whenever `n ≤ getMaxn()` -/
+def handleKrh (args res : List String) (line : String) : String :=
+  if res == ["NOBUILD"] then diff "SPEC" "the header of this field does not compile against the tree" line else
+  match natsOf args, natsOf res with
+  | some (p :: k :: irred :: nops :: rest), some [shift, maxn, acc, code, expd] =>
+    if rest.length < 2 * nops + 1 then "BAD krh shape | " ++ cut line else
+    let opsRaw := rest.take (2 * nops)
+    let n := rest.getD (2 * nops) 0
+    let ab := rest.drop (2 * nops + 1)
+    if ab.length != 2 * n then "BAD krh operands | " ++ cut line else
+    let rec mkOps : List Nat → List Givaro.Model.GFqKron.Op
+      | t :: v :: more => (if t == 0 then .shift v else .maxn v) :: mkOps more
+      | _ => []
+    let s := Givaro.Model.GFqKron.run (Givaro.Model.GFqKron.ctor p k) (mkOps opsRaw)
+    let F : Field := { p := p, k := k, irred := irred }
+    let rec pairs : List Nat → List (Nat × Nat)
+      | a :: b :: more => (a, b) :: pairs more
+      | _ => []
+    let ps := pairs ab
+    if !(ab.all (· < F.q)) then "PRE" else
+    if n > s.maxn then "PRE" else
+    let macc := ps.foldl (fun t (a, b) =>
+      t + Givaro.Model.GFqKron.convert s (digits p k a) * Givaro.Model.GFqKron.convert s (digits p k b)) 0
+    let B : Field := { p := p, k := 1, irred := 0 }
+    let f := digits p (k + 1) irred
+    let red := pmod B (Givaro.Model.GFqKron.unpack s macc) f
+    let mcode := undigits p red
+    let want := ps.foldl (fun t (a, b) => F.cadd t (F.cmul a b)) 0
+    let modelOk := s.shift == shift && s.maxn == maxn && macc == acc && mcode == code
+    let specOk := code == want && expd == want
+    if specOk && modelOk then "OK"
+    else diff (if !specOk && !modelOk then "BOTH" else if !specOk then "SPEC" else "MODEL")
+      s!"shift={s.shift},maxn={s.maxn},mask={hexNat s.mask},acc={hexNat macc},code={hexNat mcode},want={hexNat want}" line
+  | _, _ => "BAD krh numbers | " ++ cut line
+
 def lookup (key : String) : List FieldSt → Option FieldSt
   | [] => none
   | f :: fs => if f.key == key then some f else lookup key fs
@@ -316,7 +421,7 @@ partial def gfqLoop (h : IO.FS.Stream) (fields : List FieldSt) : IO Unit := do
   | none => IO.println "BAD empty"; gfqLoop h fields
   | some (kind, args, res) =>
     if res == ["CRASH"] && kind != "arr" then
-      IO.println (diff "SPEC" "the library crashed (sanitizer abort or fatal signal) in this call" line); gfqLoop h fields
+      IO.println (diff "SPEC" "the library crashed (sanitizer abort or fatal signal) or did not return (watchdog) in this call" line); gfqLoop h fields
     else if kind == "fld" then
       let (st, v) := handleFld args res line
       IO.println v
@@ -329,6 +434,8 @@ partial def gfqLoop (h : IO.FS.Stream) (fields : List FieldSt) : IO Unit := do
       IO.println (handleExt args res line); gfqLoop h fields
     else if kind == "qad" then
       IO.println (handlePack 53 (args.drop 1) res line); gfqLoop h fields
+    else if kind == "krh" then
+      IO.println (handleKrh args res line); gfqLoop h fields
     else if kind == "kro" then
       IO.println (handlePack 64 args res line); gfqLoop h fields
     else
@@ -340,6 +447,7 @@ partial def gfqLoop (h : IO.FS.Stream) (fields : List FieldSt) : IO Unit := do
         let v := if kind == "ops" then handleOps st rest res line
                  else if kind == "arr" then handleArr st rest res line
                  else if kind == "dot" then handleDot st rest res line
+                 else if kind == "vin" then handleVin st rest res line
                  else "BAD kind | " ++ cut line
         IO.println v
         gfqLoop h fields
